@@ -25,8 +25,8 @@ ASSUMPTIONS = [
 ]
 
 UNIVERSES = {
-    "1s": (["a"], [["gamma", "alpha", "b"]]),
-    "1n": (["a"], [[3, 1, 2]]),
+    "1s": (["alpha"], [["gamma", "alpha", "b"]]),
+    "1n": (["num"], [[3, 1, 2]]),
     "2x2": (["a", "b"], [[2, 1], ["y", "x"]]),
     "3x2": (["b", "a"], [[5, 3, 4], [1.5, 0.5]]),
     "2x2x2": (["c", "a", "b"], [[2, 1], ["q", "p"], [10, 20]]),
@@ -86,7 +86,7 @@ def cases(tier, seed):
                            # dict cases that also set an argument the call
                            # does not declare
                            "partial": core.pick([u, od, t, "partial"], 3) == 0}
-                    if t == 0 and len(names) >= 2 and u != "tupval":
+                    if t == 0 and u != "tupval":
                         # (tuples cannot be coordinate labels of a Dataset)
                         # the same request through a long-lived Runner that
                         # ran something else before (other argument order
@@ -192,7 +192,9 @@ def check_case(case):
                                     combos={"z": [7, 5]}, verbosity=0,
                                     shuffle=2)
                 ds = r.run_cases([tuple(c) for c in chosen],
-                                 fn_args=names if case["keyrot"] == 2
+                                 fn_args=(names[0] if len(names) == 1
+                                          else names)  # (a bare name)
+                                 if case["keyrot"] == 2
                                  else None, verbosity=0,
                                  shuffle=case["shuffle"],
                                  **({"combos": tuple(sub)} if sub else {}))
